@@ -72,6 +72,7 @@ var errKinds = map[string]string{
 	"malformed number":              "EMalformedNumber",
 	"Invalid '~' token":             "EInvalidTilde",
 	"Invalid token":                 "EInvalidToken",
+	"escape sequence too large":     "EEscapeTooLarge",
 }
 
 func trunc(s string, n int) string {
